@@ -808,7 +808,7 @@ def getitem_cases(ctx):
 def run(ctx):
     items = []
     cases = [dict(c) for c in CORPUS]
-    nbase = ctx.n(26, 220)
+    nbase = ctx.n(26, 130)
     limit = 3 if ctx.tier == "quick" else 6
     ksample = 4 if ctx.tier == "quick" else 24
     made = 0
